@@ -101,12 +101,14 @@ pub fn add_traffic(rng: &mut Rng, cases: &mut [Case]) {
 
 /// Now and then a claim the size of a scanned document: SD-JWTs beyond 64 KiB (16-bit
 /// lengths, header-size limits of transports, fixed buffers).
-pub fn maybe_big_claim(rng: &mut Rng, claims: &mut Value) {
+pub fn maybe_big_claim(rng: &mut Rng, claims: &mut Value, allow_mb: bool) {
     if !rng.chance(1, 40) {
         return;
     }
-    // one in ten of them beyond a mebibyte (an embedded document)
-    let n = if rng.chance(1, 10) { 1_200_000usize } else { *rng.pick(&[50_000usize, 66_000, 100_000, 140_000]) };
+    // one in ten of them beyond a mebibyte (an embedded document) — only where the scenario has
+    // few cases per credential (every evaluation then moves megabytes)
+    let mb = rng.chance(1, 10);
+    let n = if mb && allow_mb { 1_200_000usize } else { *rng.pick(&[50_000usize, 66_000, 100_000, 140_000]) };
     let mut s = String::with_capacity(n);
     while s.len() < n {
         s.push_str("iVBORw0KGgoAAAANSUhEUgAAAAEAAAABCAYAAAAfFcSJAAAADUlEQVR42mNk");
@@ -118,7 +120,7 @@ pub fn maybe_big_claim(rng: &mut Rng, claims: &mut Value) {
 
 fn honest_cred(rng: &mut Rng, issuer: usize, iss: &str, now: i64, cfg: &GenCfg, hk: Option<String>) -> CredSpec {
     let mut claims = gen::gen_claims(rng, cfg, iss, now);
-    maybe_big_claim(rng, &mut claims);
+    maybe_big_claim(rng, &mut claims, false);
     let strat = gen::gen_strategy(rng, &claims);
     CredSpec::Honest { issuer, claims, strat, holder_key: hk, decoys: rng.bool(), fmt: rand_fmt(rng) }
 }
@@ -232,7 +234,7 @@ pub fn gen_c03(rng: &mut Rng, tier: Tier) -> MsgScn {
     let now = clock_base(rng);
     let cfg = GenCfg::draw(rng);
     let mut claims = gen::gen_claims(rng, &cfg, &issuers[0].iss, now);
-    maybe_big_claim(rng, &mut claims);
+    maybe_big_claim(rng, &mut claims, true);
     let strat = match rng.usize(6) {
         0 => gen::gen_strategy(rng, &claims),
         1 => Strat::Top,
@@ -621,7 +623,7 @@ pub fn gen_c04(rng: &mut Rng, tier: Tier) -> MsgScn {
     };
     let mut mk = |rng: &mut Rng, issuer: usize, hk: Option<String>| {
         let mut claims = gen::gen_claims(rng, &cfg, &iss[issuer].iss, now);
-        maybe_big_claim(rng, &mut claims);
+        maybe_big_claim(rng, &mut claims, false);
         // AllLevels / TopLevel so that there are disclosures to add, drop and reorder
         // mostly AllLevels so that there are disclosures to add, drop and reorder; sometimes
         // NoSDClaims: a key-bound credential with no disclosure at all
